@@ -176,6 +176,27 @@ def isBestResponseV (v : List α) (own : Act α) (tol : α) : Bool :=
 def isDominated0 (v : List α) (a : Nat) (tol : α) : Bool :=
   decide (v.getD a 0 + tol < maxList v)
 
+/-- `pure2mixed(num_actions, action)`: the mixed-action representation of a pure action -/
+def pure2mixed {α : Type} [Zero α] [One α] (n a : Nat) : List α :=
+  (List.range n).map fun k => if k = a then 1 else 0
+
+/-- `best_response_2p(payoff_matrix, opponent_mixed_action, tol)` (the Numba kernel): the payoff
+    vector is accumulated as `pv[a] += M[a, b] * x[b]` for `b = 0, 1, …`, its maximum taken as a
+    running maximum, and the first `a` with `pv[a] >= max - tol` returned (`none` when the loop
+    falls through, i.e. for a negative `tol`). -/
+def payoffVector2p (A : Arr α) (x : List α) : List α :=
+  (List.range (A.shape.getD 0 0)).map fun a =>
+    (List.range (A.shape.getD 1 0)).foldl (fun acc b => acc + A.get [a, b] * x.getD b 0) 0
+
+def bestResponse2p (A : Arr α) (x : List α) (tol : α) : Option Nat :=
+  let pv := payoffVector2p A x
+  (List.range pv.length).find? fun a => decide (maxList pv - tol ≤ pv.getD a 0)
+
+/-- `Player.random_choice(actions, random_state)`: with one candidate no number is drawn;
+    otherwise `draw = rng_integers(random_state, len(actions))` selects -/
+def randomChoice (actions : List Nat) (draw : Nat) : Option Nat :=
+  if actions.length = 1 then actions[0]? else actions[draw]?
+
 /-- some other pure action is better than `a` by more than `tol` against every opponent profile
     (the LP-free sufficient condition for `is_dominated`) -/
 def isDominatedByPure (A : Arr α) (a : Nat) (tol : α) : Bool :=
@@ -361,6 +382,7 @@ inductive Op (α : Type) where
   | pv (i : Nat) (opps : List (Act α))
   | br (i : Nat) (opps : List (Act α)) (tol : α) (pert : Option (List α))
   | isbr (i : Nat) (own : Act α) (opps : List (Act α)) (tol : α)
+  | brr (i : Nat) (opps : List (Act α)) (tol : α) (pert : Option (List α)) (draw : Nat)
   | nash (prof : List (Act α)) (tol : α)
   | dom0 (i : Nat) (a : Nat) (tol : α)
   | dompure (i : Nat) (a : Nat) (tol : α)
@@ -461,6 +483,14 @@ def step (g : Game α) : Op α → Game α × Out α
     match payoffVectorC (g.player i) opps with
     | .ok v => (g, .idxs (bestResponses (addPert v.data pert) tol))
     | .error e => (g, .err e)
+  | .brr i opps tol pert draw =>
+    -- `best_response(..., tie_breaking='random', random_state=rs)`, `draw` being what `rs` yields
+    match payoffVectorC (g.player i) opps with
+    | .ok v =>
+      match randomChoice (bestResponses (addPert v.data pert) tol) draw with
+      | some a => (g, .idxs [a])
+      | none => (g, .err .index)
+    | .error e => (g, .err e)
   | .isbr i own opps tol =>
     match payoffVectorC (g.player i) opps with
     | .ok v => (g, .bool (isBestResponseV v.data own tol))
@@ -542,6 +572,8 @@ def parseOp? (s : String) : Option (Op Rat) :=
   | ["pv", i, o] => do pure (Op.pv (← parseNat? i) (← parseActs? o))
   | ["br", i, o, t, pert] => do
     pure (Op.br (← parseNat? i) (← parseActs? o) (← parseTol? t) (← parseOptRats? pert))
+  | ["brr", i, o, t, pert, k] => do
+    pure (Op.brr (← parseNat? i) (← parseActs? o) (← parseTol? t) (← parseOptRats? pert) (← parseNat? k))
   | ["isbr", i, own, o, t] => do
     pure (Op.isbr (← parseNat? i) (← parseAct? own) (← parseActs? o) (← parseTol? t))
   | ["nash", p, t] => do pure (Op.nash (← parseActs? p) (← parseTol? t))
@@ -611,6 +643,25 @@ def parseCtor (r : List String) : Option (Except Err (Game Rat)) :=
 
 def handle (toks : List String) : String :=
   match toks with
+  | "p2m" :: r =>
+    -- pure2mixed(n, a): NumPy indexing of the zero vector (negative `a` counts from the end)
+    match kvNat r "n", kvInt r "a" with
+    | some n, some a =>
+      match normIdx n a with
+      | some k => "v" ++ showList showRat (pure2mixed (α := Rat) n k)
+      | none => "ERR:IndexError"
+    | _, _ => "bad-op"
+  | "br2p" :: r =>
+    match kvNat r "n", kvNat r "m", kvRats r "data", kvRats r "x", kv r "tol" with
+    | some n, some m, some data, some x, some t =>
+      match parseTol? t with
+      | some tol =>
+        if data.length ≠ n * m ∨ x.length ≠ m ∨ n = 0 then "bad-op"
+        else match bestResponse2p ⟨[n, m], data⟩ x tol with
+          | some a => "i" ++ toString a
+          | none => "none"
+      | none => "bad-op"
+    | _, _, _, _, _ => "bad-op"
   | "run" :: r =>
     match parseCtor r, kv r "ops" with
     | some (.error e), _ => e.show
